@@ -486,23 +486,25 @@ func (p *Project) WithSelectedServices(names []string, options ...DependencyOpti
 	}
 
 	// Disable all services which are not explicit target or dependencies
-	enabled := Services{}
-	for name, s := range newProject.Services {
-		if _, ok := set[name]; ok {
-			// remove all dependencies but those implied by explicitly selected services
-			dependencies := s.DependsOn
-			for d := range dependencies {
-				if _, ok := set[d]; !ok {
-					delete(dependencies, d)
-				}
-			}
-			s.DependsOn = dependencies
-			enabled[name] = s
-		} else {
-			newProject = newProject.WithServicesDisabled(name)
+	var disabled []string
+	for name := range newProject.Services {
+		if _, ok := set[name]; !ok {
+			disabled = append(disabled, name)
 		}
 	}
-	newProject.Services = enabled
+	// all at once: what a disabled service keeps of its dependencies must not depend on the visit order
+	newProject = newProject.WithServicesDisabled(disabled...)
+	for name, s := range newProject.Services {
+		// remove all dependencies but those implied by explicitly selected services
+		dependencies := s.DependsOn
+		for d := range dependencies {
+			if _, ok := set[d]; !ok {
+				delete(dependencies, d)
+			}
+		}
+		s.DependsOn = dependencies
+		newProject.Services[name] = s
+	}
 	return newProject, nil
 }
 
@@ -516,17 +518,21 @@ func (p *Project) WithServicesDisabled(names ...string) *Project {
 	if newProject.DisabledServices == nil {
 		newProject.DisabledServices = Services{}
 	}
+	// first move the named services aside, with their dependencies as declared ...
 	for _, name := range names {
-		// We should remove all dependencies which reference the disabled service
+		if service, ok := newProject.Services[name]; ok {
+			newProject.DisabledServices[name] = service
+			delete(newProject.Services, name)
+		}
+	}
+	// ... then remove, from the services that remain, all dependencies which reference a disabled service: the
+	// result does not depend on the order of the names nor on the order services are visited in
+	for _, name := range names {
 		for i, s := range newProject.Services {
 			if _, ok := s.DependsOn[name]; ok {
 				delete(s.DependsOn, name)
 				newProject.Services[i] = s
 			}
-		}
-		if service, ok := newProject.Services[name]; ok {
-			newProject.DisabledServices[name] = service
-			delete(newProject.Services, name)
 		}
 	}
 	return newProject
